@@ -18,7 +18,7 @@ if DESIGN == "fix":
 JUDGE_CFG = "Judge_c15_fix.cfg" if DESIGN == "fix" else "Judge_c15.cfg"
 
 DEFAULT = dict(Contexts="CtxSingle", Cases="CasesU", OGaps="GapsSp", KGaps="GapsSp", LGaps="GapsSp", EGaps="GapsSp",
-               AGaps="GapsSp", S1Gaps="GapsNone", S2Gaps="GapsSp", Users="UsersU", Pieces="PiecesM", PwMax=1)
+               AGaps="GapsSp", S1Gaps="GapsNone", S2Gaps="GapsSp", Users="UsersU", Pieces="PiecesM", PwMax=1, PwQuote="QuoteSingle")
 
 
 def cfg(inv=INV, **kw):
@@ -136,7 +136,11 @@ def run(ctx):
             ("spec_eg", dict(Contexts="CtxS", EGaps="GapsSpecSp0", LGaps="GapsSpecSp0")),
             ("spec_ag", dict(Contexts="CtxA", AGaps="GapsSpecSp0")),
             ("spec_multi", dict(Contexts="CtxMulti", LGaps="GapsSpecFew")),
-            ("spec_quote", dict(Contexts="CtxSingle", Users="UsersSpec", Pieces="PiecesSpec", PwMax=3))]
+            ("spec_quote", dict(Contexts="CtxSingle", Users="UsersSpec", Pieces="PiecesSpec", PwMax=3)),
+            # the password written in double quotes (the "common invalid statement" of sanitize_test.go), every gap before it
+            ("spec_dq", dict(Contexts="CtxSingle", PwQuote="QuoteDouble", Pieces="PiecesDq", PwMax=3, LGaps="GapsTight", EGaps="GapsTight",
+                             Users="UsersSome")),
+            ("spec_dq_multi", dict(Contexts="CtxMulti", PwQuote="QuoteDouble", S1Gaps="GapsTight"))]
     speccases = ctx.path("cases_spec.ndjson")
     with open(speccases, "w", encoding="utf-8") as out:
         for name, consts in spec:
